@@ -18,7 +18,16 @@ differential harness.
   rejected both ways, odd length rejected; a leading U+FEFF is data (kept);
 * `utf16`: the encoder emits the BOM `FF FE` and little-endian units (a little-endian
   platform); the decoder consumes one leading BOM (`FF FE` ⇒ LE, `FE FF` ⇒ BE) and
-  decodes as LE when there is none.
+  decodes as LE when there is none;
+* `utf32le`, `utf32be`: one 4-byte unit per code point, scalar values only (surrogates and
+  values above U+10FFFF rejected both ways), a length that is not a multiple of 4 rejected; a
+  leading U+FEFF is data (kept);
+* `utf32`: the encoder emits the BOM `FF FE 00 00` and little-endian units; the decoder
+  consumes one leading BOM (`FF FE 00 00` ⇒ LE, `00 00 FE FF` ⇒ BE), LE when there is none;
+* `utf8sig` (`utf-8-sig`): the encoder emits `EF BB BF` and UTF-8; the decoder removes one
+  leading `EF BB BF` when present and decodes the rest as UTF-8;
+* `cp1252`: single byte; `0x80–0x9F` through CPython's table (`0x81 0x8D 0x8F 0x90 0x9D`
+  undefined in both directions), the rest the identity.
 
 Every codec is *code point by code point*: `encode t = bom ++ concat (map encChar t)`
 (`encChars`), and the decoder repeatedly takes one code point off the front
@@ -145,13 +154,75 @@ def utf16Decode (b : Bytes) : Option Text :=
   else if ([0xFE, 0xFF] : Bytes).isPrefixOf b then decChars (utf16Step true) (b.drop 2)
   else decChars (utf16Step false) b
 
+/-! ## utf-32 -/
+
+/-- one 32-bit unit in the byte order `be` -/
+def unit32 (be : Bool) (u : Nat) : Bytes :=
+  if be then [(u / 16777216).toUInt8, (u / 65536 % 256).toUInt8, (u / 256 % 256).toUInt8, (u % 256).toUInt8]
+  else [(u % 256).toUInt8, (u / 256 % 256).toUInt8, (u / 65536 % 256).toUInt8, (u / 16777216).toUInt8]
+
+def utf32Char (be : Bool) (c : Nat) : Option Bytes :=
+  if c < 0x110000 then
+    if 0xD800 ≤ c ∧ c < 0xE000 then none else some (unit32 be c)
+  else none
+
+def val32 (be : Bool) (a b c d : UInt8) : Nat :=
+  if be then a.toNat * 16777216 + b.toNat * 65536 + c.toNat * 256 + d.toNat
+  else d.toNat * 16777216 + c.toNat * 65536 + b.toNat * 256 + a.toNat
+
+def utf32Step (be : Bool) : Bytes → Option (Nat × Bytes)
+  | a :: b :: c :: d :: r =>
+    let u := val32 be a b c d
+    if u < 0xD800 || (0xE000 ≤ u && u < 0x110000) then some (u, r) else none
+  | _ => none
+
+/-- the BOM `str.encode('utf-32')` emits on this (little-endian) platform -/
+def bom32 : Bytes := [0xFF, 0xFE, 0, 0]
+
+/-- `bytes.decode('utf-32')` -/
+def utf32Decode (b : Bytes) : Option Text :=
+  if bom32.isPrefixOf b then decChars (utf32Step false) (b.drop 4)
+  else if ([0, 0, 0xFE, 0xFF] : Bytes).isPrefixOf b then decChars (utf32Step true) (b.drop 4)
+  else decChars (utf32Step false) b
+
+/-! ## utf-8-sig -/
+
+/-- the signature `str.encode('utf-8-sig')` emits -/
+def bom8 : Bytes := [0xEF, 0xBB, 0xBF]
+
+/-- `bytes.decode('utf-8-sig')`: one leading signature is removed -/
+def utf8sigDecode (b : Bytes) : Option Text :=
+  if bom8.isPrefixOf b then decChars utf8Step (b.drop 3) else decChars utf8Step b
+
+/-! ## cp1252 -/
+
+/-- the rows `0x80–0x9F` of CPython's `cp1252` decoding table (code point, byte); the bytes
+`0x81 0x8D 0x8F 0x90 0x9D` are undefined -/
+def cp1252Table : List (Nat × UInt8) :=
+  [(0x20AC, 0x80), (0x201A, 0x82), (0x0192, 0x83), (0x201E, 0x84), (0x2026, 0x85), (0x2020, 0x86), (0x2021, 0x87),
+   (0x02C6, 0x88), (0x2030, 0x89), (0x0160, 0x8A), (0x2039, 0x8B), (0x0152, 0x8C), (0x017D, 0x8E),
+   (0x2018, 0x91), (0x2019, 0x92), (0x201C, 0x93), (0x201D, 0x94), (0x2022, 0x95), (0x2013, 0x96), (0x2014, 0x97),
+   (0x02DC, 0x98), (0x2122, 0x99), (0x0161, 0x9A), (0x203A, 0x9B), (0x0153, 0x9C), (0x017E, 0x9E), (0x0178, 0x9F)]
+
+def cp1252Char (c : Nat) : Option Bytes :=
+  if c < 0x80 ∨ (0xA0 ≤ c ∧ c < 0x100) then some [c.toUInt8]
+  else (cp1252Table.find? (fun p => p.1 == c)).map (fun p => [p.2])
+
+def cp1252Step : Bytes → Option (Nat × Bytes)
+  | [] => none
+  | b :: r =>
+    if b.toNat < 0x80 ∨ 0xA0 ≤ b.toNat then some (b.toNat, r)
+    else (cp1252Table.find? (fun p => p.2 == b)).map (fun p => (p.1, r))
+
 /-! ## the codecs by name -/
 
 inductive Codec
   | ascii | latin1 | utf8 | utf16 | utf16le | utf16be
+  | utf32 | utf32le | utf32be | utf8sig | cp1252
 deriving DecidableEq, Repr
 
-def Codec.all : List Codec := [.ascii, .latin1, .utf8, .utf16, .utf16le, .utf16be]
+def Codec.all : List Codec :=
+  [.ascii, .latin1, .utf8, .utf16, .utf16le, .utf16be, .utf32, .utf32le, .utf32be, .utf8sig, .cp1252]
 
 /-- `codecs.lookup(…).name` -/
 def Codec.name : Codec → Name
@@ -161,19 +232,32 @@ def Codec.name : Codec → Name
   | .utf16 => t!"utf-16"
   | .utf16le => t!"utf-16-le"
   | .utf16be => t!"utf-16-be"
+  | .utf32 => t!"utf-32"
+  | .utf32le => t!"utf-32-le"
+  | .utf32be => t!"utf-32-be"
+  | .utf8sig => t!"utf-8-sig"
+  | .cp1252 => t!"cp1252"
 
 /-- the spellings this environment knows (a small part of CPython's alias table) -/
 def aliases : List (Name × Codec) :=
   [(t!"ascii", .ascii),
    (t!"latin1", .latin1), (t!"latin-1", .latin1), (t!"iso-8859-1", .latin1), (t!"iso8859-1", .latin1),
    (t!"utf-8", .utf8), (t!"utf8", .utf8), (t!"UTF-8", .utf8),
-   (t!"utf-16", .utf16), (t!"utf-16-le", .utf16le), (t!"utf-16-be", .utf16be)]
+   (t!"utf-16", .utf16), (t!"utf-16-le", .utf16le), (t!"utf-16-be", .utf16be),
+   (t!"utf-32", .utf32), (t!"utf32", .utf32), (t!"UTF-32", .utf32),
+   (t!"utf-32-le", .utf32le), (t!"utf-32-be", .utf32be),
+   (t!"utf-8-sig", .utf8sig), (t!"UTF-8-SIG", .utf8sig),
+   (t!"cp1252", .cp1252), (t!"windows-1252", .cp1252),
+   (t!"UTF-16", .utf16), (t!"utf_16", .utf16), (t!"utf16", .utf16),
+   (t!"latin_1", .latin1), (t!"us-ascii", .ascii)]
 
 def lookup (n : Name) : Option Codec := aliases.lookup n
 
 /-- the BOM the encoder emits -/
 def Codec.bom : Codec → Bytes
   | .utf16 => bom16
+  | .utf32 => bom32
+  | .utf8sig => bom8
   | _ => []
 
 def Codec.encChar : Codec → Nat → Option Bytes
@@ -183,6 +267,11 @@ def Codec.encChar : Codec → Nat → Option Bytes
   | .utf16 => utf16Char false
   | .utf16le => utf16Char false
   | .utf16be => utf16Char true
+  | .utf32 => utf32Char false
+  | .utf32le => utf32Char false
+  | .utf32be => utf32Char true
+  | .utf8sig => utf8Char
+  | .cp1252 => cp1252Char
 
 /-- `text.encode(name)` -/
 def Codec.encode (c : Codec) (t : Text) : Option Bytes :=
@@ -196,6 +285,11 @@ def Codec.decode : Codec → Bytes → Option Text
   | .utf16 => utf16Decode
   | .utf16le => decChars (utf16Step false)
   | .utf16be => decChars (utf16Step true)
+  | .utf32 => utf32Decode
+  | .utf32le => decChars (utf32Step false)
+  | .utf32be => decChars (utf32Step true)
+  | .utf8sig => utf8sigDecode
+  | .cp1252 => decChars cp1252Step
 
 def ofOpt {α} : Option α → EnvR α
   | some a => .ok a
